@@ -587,6 +587,37 @@ Section FileThm.
           unfold cd, mk_cd. cbn [cd_ty cd_desc cd_diff]. rewrite !text_eqb_refl, Z.eqb_refl, (list_close_refl0 _ _ R2). reflexivity.
         + cbn [d_notes]. exact Hperm.
     Qed.
+    (* the same block seen from the READER's side: row counts, characters of the note data *)
+    Lemma chart_item_reader body rn rd dc : chart_body cf current c = Some body ->
+      Forall2 rad_ok rn rd -> Forall2 (fun x r => x == r) rd (c_radar c) ->
+      (forall keys' time' op acc op' acc' ns,
+         denote_measures (match body with [] => [] | _ => split_on 44 body end) keys' 0 time' op acc [] = Some (op', acc', ns) ->
+         Forall (fun n => (n mod 4 = 0)%Z) ns) ->
+      denote_chart (cvalue (mk_cd c body rn)) (beat_time beat0 script) = Some dc ->
+      Forall (fun n => (n mod 4 = 0)%Z) (d_rows dc) /\ forallb bodych body = true /\ (body = [] \/ (head_nows body /\ head_nows (rev body))).
+    Proof.
+      intros Hbody R1 R2 R4 DC. set (cd := mk_cd c body rn) in *.
+      destruct (chart_dom_parts c0 c init l (Hchart_common _ _ _ _ Hcd)) as [keys [K1 [K2 [T1 [T2 [T3 [Rn [Eb [P1 [P2 [P3 P4]]]]]]]]]]].
+      destruct (Hchart rows init l Hscript Htd script beat0 Hsc Hb0 c0 c keys Hrows0 Hcd K1)
+        as [body' [B [Bends [Bch [op [notes [ns [D [Ho Hperm]]]]]]]]].
+      assert (body' = body) by congruence. subst body'.
+      destruct (tame_parts _ T1) as [A1 [A2 [A3 [A4 A5]]]]. destruct (tame_parts _ T2) as [B1 [B2 [B3 [B4 B5]]]].
+      destruct (tame_parts _ T3) as [C1 [C2 [C3 [C4 C5]]]].
+      assert (Hrn: rn <> []).
+      { intro E. subst rn. inversion R1; subst. inversion R2; subst. congruence. }
+      destruct (radar_text_ok rn rd Hrn R1) as [Q1 [Q2 [Q3 [Q4 Q5]]]].
+      assert (Hbe: ends_okb body = true).
+      { destruct Bends as [->|[E1 E2]]; [reflexivity|apply ends_okb_spec; split; assumption]. }
+      assert (Hf: cd_fields_ok cd).
+      { unfold cd_fields_ok, cd, mk_cd. cbn [cd_comment cd_ty cd_desc cd_diff cd_meter cd_radar cd_body].
+        repeat split; try assumption; try (apply strip_fix_ends; assumption).
+        - apply show_int_no. reflexivity.
+        - apply ends_okb_spec. pose proof (show_int_nows (c_meter c)) as W. split; [apply nows_head; exact W|apply nows_head; rewrite forallb_rev; exact W].
+        - apply ends_okb_spec. split; assumption.
+        - apply (body_no body 58%Z Bch). reflexivity. }
+      pose proof (denote_chart_cvalue cd keys (c_meter c) rd _ op notes ns Hf K1 (parse_int_show_int _) (radar_parse rn rd Hrn R1) D Ho) as E.
+      rewrite E in DC. injection DC as <-. cbn [d_rows]. split; [apply Forall_rev; exact (R4 _ _ _ _ _ _ _ D)|]. split; assumption.
+    Qed.
   End OneChart.
 
   (* ---- the header ---- *)
@@ -888,6 +919,140 @@ Section FileThm.
     assert (R4: q_close 0 (x_sl * 1000) (s_slen s) = true) by (apply q_close0; rewrite L3, Qred_correct; field).
     rewrite R3, R4. cbn [andb]. apply text_eqb_refl.
   Qed.
+
+  (* ---- what the READER's domain (Formats/SMReadDom.v) needs to know about a written text ---- *)
+  Definition reader_facts (s : smset) (txt : text) : Prop :=
+    exists n_off x_off bp pairs n_ss x_ss n_sl x_sl cds dcs init l c0 cs,
+      let bpmv := join [44%Z; 10%Z] (map ptext bp) in
+      let hl := hlist (s_txt s) n_off bpmv n_ss n_sl (s_sel s) in
+      let beat0 := Qred (- (x_off * 1000)) in
+      s_maps s = c0 :: cs /\ tempo_script_of cf (c_bpms c0) = Some (init, l)
+      /\ forallb tame_str (s_txt s) = true
+      /\ txt = join nl (map hline hl ++ concat (map ctexts cds))
+      /\ (numeral n_off = true /\ parse_decimal n_off = Some x_off) /\ (numeral n_ss = true /\ parse_decimal n_ss = Some x_ss)
+      /\ (numeral n_sl = true /\ parse_decimal n_sl = Some x_sl)
+      /\ bp <> [] /\ Forall2 pair_ok bp pairs
+      /\ Forall2 (fun (p : Q * Q) (r : Q * Q * Q) => fst p == spec_beat init l (fst (fst r))) pairs (c_bpms c0)
+      /\ sm_denote txt = Some (mkDf (hfields hl) beat0
+                                    (map (fun p : Q * Q => (fst p, snd p, beat_time beat0 (tempo_script pairs) (fst p))) (sort_by pair_lt pairs)) dcs)
+      /\ Forall (fun dc => Forall (fun n => (n mod 4 = 0)%Z) (d_rows dc)) dcs
+      /\ Forall2 (fun c cd => exists body rn rd, cd = mk_cd c body rn /\ Forall2 rad_ok rn rd /\ forallb bodych body = true
+                               /\ (body = [] \/ (head_nows body /\ head_nows (rev body)))
+                               /\ chart_common_domb cf c0 c init l = true) (s_maps s) cds.
+
+  Hypothesis Hrows4 : forall c0 c init l body, chartdom c0 c init l = true -> tempo_script_of cf (c_bpms c0) = Some (init, l) ->
+    tempo_domb cf (c_bpms c0) init l = true -> chart_body cf current c = Some body ->
+    forall keys' time' op acc op' acc' ns,
+      denote_measures (match body with [] => [] | _ => split_on 44 body end) keys' 0 time' op acc [] = Some (op', acc', ns) ->
+      Forall (fun n => (n mod 4 = 0)%Z) ns.
+
+  Theorem sm_write_reader_facts s : c03_dom_with cf chartdom s = true ->
+    exists toks, sm_write cf current s = Some toks /\ forall txt, match_toks 0 toks txt = true -> reader_facts s txt.
+  Proof.
+    intro Hdom.
+    destruct (set_dom_parts s Hdom) as [c0 [cs [init [l [off [Em [Et [Htx [Hlen [Htd [Eo [Eoff Hch]]]]]]]]]]]].
+    set (rows := c_bpms c0) in *.
+    set (bodyof := fun c => match chart_body cf current c with Some b => b | None => [] end).
+    assert (Hbody: forall c, In c (s_maps s) -> chart_body cf current c = Some (bodyof c)).
+    { intros c Hc. rewrite forallb_forall in Hch.
+      destruct (chart_body_exists rows init l Et Htd l init (bcs_eqv_refl l) (Qeq_refl _) c0 c eq_refl (Hch c Hc)) as [b Hb].
+      unfold bodyof. rewrite Hb. reflexivity. }
+    destruct (tdom_parts cf rows init l Htd) as (_ & _ & _ & _ & _ & _ & _ & _ & _ & D10).
+    set (ros := map (fun b : Q * Q * Q => fst (fst b)) rows).
+    assert (Hros: forallb (time_okb cf init l) ros = true).
+    { unfold ros. apply forallb_forall. intros o Ho. apply in_map_iff in Ho. destruct Ho as [r [<- Hr]]. rewrite forallb_forall in D10. apply D10. exact Hr. }
+    destruct (beats_of_times cf Hok rows init l Et Htd ros Hros) as [bb [B1 [B2 _]]].
+    assert (Ebb: bb = map (spec_beat init l) ros) by (apply forall2_eq_map; apply (forall2_impl _ _ _ _ (fun a b H => proj1 H) B2)).
+    set (items := map (fun r : Q * Q * Q => (spec_beat init l (fst (fst r)), snd (fst r))) rows).
+    assert (Ep: map (fun p : Q * (Q * Q * Q) => [TRnd2 (fst p); L "="; TNum (snd (fst (snd p)))]) (combine bb rows)
+              = map (fun bq : Q * Q => [TRnd2 (fst bq); L "="; TNum (snd bq)]) items).
+    { rewrite Ebb. unfold ros, items. rewrite map_map, combine_map_self, !map_map. reflexivity. }
+    assert (Hmeta: write_metadata cf current s = Some (mlines (s_txt s) off items (s_sstart s) (s_slen s) (s_sel s))).
+    { unfold write_metadata. rewrite Em, Eo. fold rows. fold ros. match goal with |- match ?X with _ => _ end = _ => replace X with (Some bb) by (symmetry; exact B1) end. cbv zeta. rewrite Ep. reflexivity. }
+    assert (Hcharts: map_opt (write_chart cf current) (s_maps s) = Some (map (fun c => clines c (bodyof c)) (s_maps s))).
+    { apply map_opt_map. intros c Hc. apply write_chart_eq. apply Hbody. exact Hc. }
+    eexists. split; [unfold sm_write; rewrite Hmeta, Hcharts; reflexivity|].
+    intros txt Hm.
+    rewrite <- (app_nil_r (concat _)) in Hm. apply mt_sep in Hm. destruct Hm as [texts [s' [F [Etxt Hr]]]]. apply mt_nil in Hr. subst s'. rewrite app_nil_r in Etxt.
+    apply Forall2_app_inv_l in F. destruct F as [t1 [t2 [F1 [F2 Et12]]]].
+    destruct (header_render _ _ _ _ _ _ _ F1) as [n_off [x_off [bp [pairs [n_ss [x_ss [n_sl [x_sl [Et1 [[A1 [A2 A3]] [[S1 [S2 S3]] [[L1 [L2 L3]] [P1 P2]]]]]]]]]]]]].
+    destruct (forall2_concat_inv _ _ _ F2) as [tss [Et2 F2']].
+    destruct (charts_render bodyof (s_maps s) tss F2') as [cds [Etss G]].
+    (* the script the text denotes *)
+    set (script := tempo_script pairs). set (beat0 := Qred (- (x_off * 1000))).
+    assert (HP: Forall2 (fun (p : Q * Q) (r : Q * Q * Q) =>
+                 is_millionth (fst p) = true /\ Qabs (fst p - spec_beat init l (fst (fst r))) <= 1 # 2000000 /\ snd p == snd (fst r)) pairs rows).
+    { unfold items in P2. apply forall2_map_r in P2. exact P2. }
+    destruct (written_script cf Hok rows init l Et Htd pairs HP) as [Hsc Hpos]. fold script in Hsc.
+    assert (Hb0: beat0 == init).
+    { unfold beat0. rewrite Qred_correct, A3, Qred_correct, <- Eoff. field. }
+    assert (Hrows_ne: rows <> []).
+    { intro E. unfold tempo_script_of in Et. fold rows in Et. rewrite E in Et. discriminate. }
+    assert (Hbp: bp <> []).
+    { intro E. subst bp. inversion P1; subst. inversion HP; subst. congruence. }
+    (* charts *)
+    assert (Hgen: forall maps cds',
+              Forall2 (fun c cd => In c (s_maps s) /\ exists rn rd, cd = mk_cd c (bodyof c) rn /\ Forall2 rad_ok rn rd /\ Forall2 (fun x r => x == r) rd (c_radar c)) maps cds' ->
+              Forall cd_clean cds' /\ Forall cd_ok cds'
+              /\ exists dcs, map_opt (fun it : text * text => denote_chart (snd it) (beat_time beat0 script)) (map (fun cd => (tx "#NOTES", cvalue cd)) cds') = Some dcs
+                             /\ Forall (fun dc => Forall (fun n => (n mod 4 = 0)%Z) (d_rows dc)) dcs
+                             /\ Forall2 (fun c cd => exists body rn rd, cd = mk_cd c body rn /\ Forall2 rad_ok rn rd /\ forallb bodych body = true
+                                                     /\ (body = [] \/ (head_nows body /\ head_nows (rev body)))
+                                                     /\ chart_common_domb cf c0 c init l = true) maps cds').
+    { intros maps cds' G'. induction G' as [|c cd maps cds' [Hc [rn [rd [-> [R1 R2]]]]] _ IH].
+      - split; [constructor|]. split; [constructor|]. exists []. split; [reflexivity|]. split; constructor.
+      - destruct IH as [I1 [I2 [dcs [I3 [I4 I5]]]]]. rewrite forallb_forall in Hch.
+        destruct (chart_item_denotes rows init l Et Htd script beat0 Hsc Hb0 c0 c eq_refl (Hch c Hc) (bodyof c) rn rd (Hbody c Hc) R1 R2) as [C1 [C2 [dc [C3 C4]]]].
+        destruct (chart_item_reader rows init l Et Htd script beat0 Hsc Hb0 c0 c eq_refl (Hch c Hc) (bodyof c) rn rd dc (Hbody c Hc) R1 R2
+                    (Hrows4 c0 c init l (bodyof c) (Hch c Hc) Et Htd (Hbody c Hc)) C3) as [E1 [E2 E3]].
+        split; [constructor; assumption|]. split; [constructor; assumption|]. exists (dc :: dcs). split; [|split].
+        + cbn [map map_opt snd]. rewrite C3, I3. reflexivity.
+        + constructor; assumption.
+        + constructor; [|exact I5]. exists (bodyof c), rn, rd. repeat split; try assumption. apply Hchart_common. apply Hch. exact Hc. }
+    pose proof (Hgen (s_maps s) cds (forall2_with_in _ _ _ G)) as Hcds.
+    destruct Hcds as [CC1 [CC2 [dcs [CD1 [CD2 CD3]]]]].
+    (* header *)
+    set (bpmv := join [44%Z; 10%Z] (map ptext bp)).
+    set (hl := hlist (s_txt s) n_off bpmv n_ss n_sl (s_sel s)).
+    destruct (bpms_text_ok bp pairs Hbp P1) as [Q1 [Q2 [Q3 Q4]]]. fold bpmv in Q1, Q2, Q3, Q4.
+    assert (Hhl: Forall (fun tv => h_clean tv /\ h_ok tv) hl).
+    { apply hlist_ok.
+      - intro i. apply good_tame. apply tame_nth. exact Htx.
+      - apply (good_num n_off x_off A1 A2).
+      - split; [exact Q1|]. split; [apply no47_clean; exact Q2|exact Q4].
+      - apply (good_num n_ss x_ss S1 S2).
+      - apply (good_num n_sl x_sl L1 L2). }
+    assert (Hcds_ne: cds <> []).
+    { intro E. subst cds. inversion G; subst. rewrite Em in *. discriminate. }
+    assert (Etext: txt = join nl (map hline hl ++ concat (map ctexts cds))).
+    { rewrite Etxt, Et12, Et1, Et2, Etss. reflexivity. }
+    pose proof (file_items hl cds ltac:(discriminate) Hcds_ne
+                  (Forall_impl _ (fun tv H => proj1 H) Hhl) CC1 (Forall_impl _ (fun tv H => proj2 H) Hhl) CC2) as Hitems.
+    rewrite <- Etext in Hitems.
+    set (itemsL := map (fun tv : text * text => (35%Z :: fst tv, snd tv)) hl ++ map (fun cd => (tx "#NOTES", cvalue cd)) cds) in *.
+    assert (Efields: map (fun it : text * text => (fst it, strip (snd it))) (filter (fun it => negb (is_notes it)) itemsL) = hfields hl).
+    { unfold itemsL. rewrite filter_app. destruct (filter_hdr hl (hlist_not_notes _ _ _ _ _ _)) as [E1 _]. destruct (filter_charts cds) as [E2 _].
+      unfold text in *. rewrite E1, E2, app_nil_r. unfold hfields. rewrite map_map. reflexivity. }
+    assert (Enotes: filter is_notes itemsL = map (fun cd => (tx "#NOTES", cvalue cd)) cds).
+    { unfold itemsL. rewrite filter_app. destruct (filter_hdr hl (hlist_not_notes _ _ _ _ _ _)) as [_ E1]. destruct (filter_charts cds) as [_ E2].
+      unfold text in *. rewrite E1, E2. reflexivity. }
+    destruct (hl_lookups (s_txt s) n_off bpmv n_ss n_sl (s_sel s)) as [K1 [K2 [K3 [K4 [K5 K6]]]]]. fold hl in K1, K2, K3, K4, K5, K6.
+    assert (Sb: strip bpmv = bpmv) by (apply strip_id; assumption).
+    rewrite (numeral_strip _ A1) in K1. rewrite Sb in K2. rewrite (numeral_strip _ S1) in K4. rewrite (numeral_strip _ L1) in K5.
+    pose proof (sm_denote_items txt itemsL n_off bpmv x_off pairs dcs Hitems) as SD. cbv zeta in SD. rewrite Efields, Enotes in SD.
+    specialize (SD K1 K2 A2 (bpms_parse bp pairs Hbp P1) K3 (script_first_ok cf rows init l Et Htd script Hsc) Hpos CD1).
+    exists n_off, x_off, bp, pairs, n_ss, x_ss, n_sl, x_sl, cds, dcs, init, l, c0, cs. cbv zeta.
+    split; [exact Em|]. split; [exact Et|]. split; [exact Htx|]. split; [exact Etext|].
+    split; [split; assumption|]. split; [split; assumption|]. split; [split; assumption|]. split; [exact Hbp|]. split; [exact P1|].
+    split.
+    { assert (FI : forall (A B : Type) (R R' : A -> B -> Prop) la lb, Forall2 R la lb -> (forall a b, In b lb -> R a b -> R' a b) -> Forall2 R' la lb).
+      { intros A B R R' la lb F. induction F as [|a b la lb Hab _ IH]; intro K; constructor.
+        - apply K; [left; reflexivity|exact Hab].
+        - apply IH. intros a' b' Hb'. apply K. right. exact Hb'. }
+      refine (FI _ _ _ _ _ _ HP _). intros p r Hr [M [C E]]. apply millionth_eq; [exact M| |exact C].
+      exact (row_beat_millionth cf Hok rows init l Et Htd r Hr). }
+    split; [exact SD|]. split; [exact CD2|exact CD3].
+  Qed.
 End FileThm.
 
 (* ================================================================ from permutations to the runner's oracle *)
@@ -1010,6 +1175,27 @@ Section Regimes.
     destruct (H txt Hm) as [d [D1 [D2 D3]]]. exists d. split; [exact D1|]. unfold write_spec. rewrite D2. cbn [andb].
     apply forallb2_of_forall2. refine (forall2_impl _ _ _ _ _ D3). intros dc c [G1 [G2 G3]].
     rewrite G1, (objs_match_exact dc c G2 G3). reflexivity.
+  Qed.
+
+  (* the facts the READER's domain needs about every exact rendering (exact regime) *)
+  Theorem sm_write_reader_facts_gen s : c03_domb_gen cf s = true ->
+    exists toks, sm_write cf current s = Some toks /\ forall txt, match_toks 0 toks txt = true -> reader_facts cf s txt.
+  Proof.
+    intro Hdom.
+    apply (sm_write_reader_facts cf Hok (chart_domb cf) (fun _ _ c notes => exactP c notes)
+             (fun c0 c init l H => proj1 (chart_domb_parts c0 c init l H))); [| |exact Hdom].
+    - intros rows init l Hs Ht script beat0 Hsc Hb0 c0 c keys Hr Hcd Hk.
+      destruct (chart_domb_parts c0 c init l Hcd) as [Hcom [Hdist Hex]].
+      destruct (chart_dom_parts cf c0 c init l Hcom) as [keys' [K1 [K2 [_ [_ [_ [_ [Eb [P1 [P2 [P3 P4]]]]]]]]]]].
+      assert (keys' = keys) by congruence. subst keys'.
+      destruct (chart_thm cf Hcf Hok rows init l Hs Ht script beat0 Hsc Hb0 c keys (eq_trans Eb Hr) K1 K2 P1 P2 P3 P4 Hdist Hex)
+        as [body [B1 [B2 [B3 [op [notes [ns [D [Ho Hp]]]]]]]]].
+      exists body. split; [exact B1|]. split; [exact B2|]. split; [exact B3|]. exists op, notes, ns. split; [exact D|]. split; [exact Ho|].
+      split; [exact Hp|]. intro k. apply (chart_keys_distinct cf Hcf init l c Hdist).
+    - intros c0 c init l body Hcd Hs Ht Hb.
+      destruct (chart_domb_parts c0 c init l Hcd) as [Hcom [Hdist Hex]].
+      destruct (chart_dom_parts cf c0 c init l Hcom) as [keys [K1 [K2 [_ [_ [_ [_ [Eb [P1 [P2 [P3 P4]]]]]]]]]]].
+      exact (chart_rows4 cf Hcf Hok (c_bpms c0) init l Hs Ht l init c keys Eb K1 K2 P1 P4 Hdist Hex body Hb).
   Qed.
 
   (* the concrete shape of the written text (for compositions with the reader) *)
@@ -1151,3 +1337,7 @@ Theorem sm_write_tempo_cap (s : smset) : c03_cap_domb s = true ->
         /\ exists init l, match s_maps s with c0 :: _ => tempo_script_of live_conf (c_bpms c0) = Some (init, l) /\ tempo_denotes d (c_bpms c0) init l
                                              | [] => False end.
 Proof. exact (sm_write_tempo_gen live_conf live_conf_ref live_table_ok s). Qed.
+
+Theorem sm_write_reader_facts_live (s : smset) : c03_domb s = true ->
+  exists toks, sm_write live_conf current s = Some toks /\ forall txt, match_toks 0 toks txt = true -> reader_facts live_conf s txt.
+Proof. exact (sm_write_reader_facts_gen live_conf live_conf_ref live_table_ok s). Qed.
